@@ -83,6 +83,10 @@ import (
 const (
 	c19EnvConfig = "VERIF_C19_CHILD_CONFIG" // file to start from (absolute)
 	c19EnvOut    = "VERIF_C19_CHILD_OUT"    // result file
+	// c19EnvOneDump: persist exactly once per start (DumpConfig only, no
+	// InheritMosnconfig): in the directory modes every dump rewrites and sweeps
+	// the directory, and the harness wants to look at it after EVERY dump
+	c19EnvOneDump = "VERIF_C19_CHILD_ONEDUMP"
 )
 
 // c19ChildResult is what one start of MOSN reports back.
@@ -154,13 +158,15 @@ func TestVerifC19Child(t *testing.T) {
 	res.Stage = "inherit"
 	c19WriteResult(res)
 	// form 1: the bytes a hot upgrade hands to the new process
-	b, err := configmanager.InheritMosnconfig()
-	if err != nil {
-		res.Err = "InheritMosnconfig: " + err.Error()
-		c19WriteResult(res)
-		os.Exit(0)
+	if os.Getenv(c19EnvOneDump) == "" {
+		b, err := configmanager.InheritMosnconfig()
+		if err != nil {
+			res.Err = "InheritMosnconfig: " + err.Error()
+			c19WriteResult(res)
+			os.Exit(0)
+		}
+		res.Inherit = string(b)
 	}
-	res.Inherit = string(b)
 	res.Stage = "persist"
 	c19WriteResult(res)
 	// form 2: the persisted file (what the auto_config / dump loop writes
